@@ -73,6 +73,13 @@ def quick_corpus():
     # strongly unequal legs (C08) -- long outer leg, long inner leg
     c.append(tok("lsn", s=1, fs=1, tag="lsn-long-outer", ny_inner_divertor=2, ny_outer_divertor=9, ny_sol=4))
     c.append(tok("usn", s=1, fs=1, tag="usn-long-inner", ny_inner_divertor=8, ny_outer_divertor=3, ny_sol=4, guards=2, wall="box"))
+    # extrapolated profiles: psi_sol must be given as a number (analytic axis/boundary values)
+    from .families import GaussFamily
+
+    e_ = {"topo": "lsn", "s": -1, "fs": 1, "shift": [0.003, 0.002], "pn_max": 1.0}
+    f_ = GaussFamily(e_)
+    ps = f_.psi_axis + 1.2 * (f_.psi_bdry - f_.psi_axis)
+    c.append(tok("lsn", s=-1, fs=1, tag="lsn-extrapolate", eq_extra={"pn_max": 1.0}, extrapolate_profiles=True, psi_sol=ps, psi_sol_inner=ps))
     c.append(circ())
     return c
 
